@@ -58,6 +58,12 @@ func contractProps(ct *Contract) map[string]bool {
 	if ct.AllocBound != nil {
 		add(ct.AllocBound.Tags)
 	}
+	for _, a := range ct.AssertAt {
+		add(a.Spec.Tags)
+	}
+	if ct.PanicsIff != nil {
+		add(ct.PanicsIff.Tags)
+	}
 	for _, l := range ct.Loops {
 		for _, s := range l.Invs {
 			add(s.Tags)
@@ -86,10 +92,14 @@ func genVCs(w *World, db *ContractDB, ct *Contract) (res *FnResult) {
 		e.privPkg = sanitize(pkgRel(fn.Pkg.Pkg))
 	}
 	f := &frame{e: e, fn: fn, vals: map[ssa.Value]T{}, addrs: map[ssa.Value]Addr{}, tuples: map[ssa.Value][]T{},
-		ct: ct, nopanic: ct.NoPanic, tags: ct.NoPanicTags, pinv: map[*ssa.BasicBlock]*pendInv{}}
+		ct: ct, nopanic: ct.NoPanic, tags: ct.NoPanicTags, pinv: map[*ssa.BasicBlock]*pendInv{}, assertHit: map[*SpecExpr]bool{}}
 	f.root = f
 	st := &State{cond: "true", heap: map[string]int{}}
 	e.assume("(>= " + e.H(st, "W", "Int") + " 0)")
+	for _, sc := range sameCallees(fn) {
+		e.setHeap(st, "CALLED_"+sc, "Bool", "false")
+		e.setHeap(st, "COUNT_"+sc, "Int", "0")
+	}
 	e.H(st, "EXCL", "(Array Int Bool)")
 	for _, p := range fn.Params {
 		srt := e.sortOf(p.Type())
@@ -139,6 +149,13 @@ func genVCs(w *World, db *ContractDB, ct *Contract) (res *FnResult) {
 		penv.lock = f.lockSt
 		penv.results = r.vals
 		penv.resName = ct.ResultNames
+		if ct.PanicsIff != nil {
+			eenv := f.specEnv(entry)
+			eenv.pkg = ct.Pkg
+			if t, err := eenv.evalBool(ct.PanicsIff); err == nil {
+				e.addOb("returns-only-if-not", ct.PanicsIff.Text, ct.PanicsIff.Tags, ct.PanicsIff.Src+" @return "+r.pos, r.cond, not(t))
+			}
+		}
 		for _, en := range ct.Ensures {
 			t, err := penv.evalBool(en)
 			if err != nil {
@@ -147,6 +164,12 @@ func genVCs(w *World, db *ContractDB, ct *Contract) (res *FnResult) {
 			}
 			_ = k
 			e.addOb("post", en.Text, en.Tags, en.Src+" @return "+r.pos, r.cond, t)
+		}
+	}
+	// a ghost assertion whose anchor matches no call/send can no longer be checked: undischarged
+	for _, a := range ct.AssertAt {
+		if !f.assertHit[a.Spec] {
+			e.addOb("assert-anchor-missing", a.What+" \""+a.Sub+"\": "+a.Spec.Text, a.Spec.Tags, a.Spec.Src, "true", "false")
 		}
 	}
 	// frame: heaps outside the modifies clause keep their contents on all objects allocated at entry
@@ -213,6 +236,21 @@ func (f *frame) addAxioms() {
 		for i, ax := range db.axioms {
 			if done[i] || !used(ax.Expr) {
 				continue
+			}
+			if len(ax.Tags) > 0 {
+				// grouped axiom: only for functions that ask for the group
+				want := false
+				if f.ct != nil {
+					for _, g := range f.ct.Use {
+						if hasTag(ax.Tags, g) {
+							want = true
+						}
+					}
+				}
+				if !want {
+					done[i] = true
+					continue
+				}
 			}
 			done[i] = true
 			changed = true
@@ -308,7 +346,7 @@ func (f *frame) frameObligations(ct *Contract, entry *State) {
 			}
 		}
 		for _, n := range names {
-			if n == "W" || n == "EXCL" {
+			if n == "W" || n == "EXCL" || strings.HasPrefix(n, "LAST_") || strings.HasPrefix(n, "CALLED_") || strings.HasPrefix(n, "COUNT_") || strings.HasPrefix(n, "VIS_") || strings.HasPrefix(n, "LASTB_") {
 				continue
 			}
 			v0, v1 := e.ver(entry, n), e.ver(r.st, n)
@@ -321,6 +359,18 @@ func (f *frame) frameObligations(ct *Contract, entry *State) {
 			h0, h1 := e.H(entry, n, e.heapSort[n]), e.H(r.st, n, e.heapSort[n])
 			excl := ""
 			for _, m := range ct.Modifies {
+				if i := strings.Index(m, "@"); i > 0 && strings.Contains(m[:i], ".") {
+					// T.f@param: the field may change on that object only
+					tf := m[:i]
+					d := strings.Index(tf, ".")
+					if obj := ct.Pkg.Scope().Lookup(tf[:d]); obj != nil && "H_"+e.structKey(obj.Type())+"_"+tf[d+1:] == n {
+						for _, p := range f.fn.Params {
+							if p.Name() == m[i+1:] {
+								excl += " (not (= fr " + f.vals[p].S + "))"
+							}
+						}
+					}
+				}
 				if strings.HasPrefix(m, "elems(") {
 					pn := m[6 : len(m)-1]
 					for _, p := range f.fn.Params {
@@ -340,4 +390,28 @@ func (f *frame) frameObligations(ct *Contract, entry *State) {
 			e.addOb("frame", n, nil, ct.Src, r.cond, goal)
 		}
 	}
+}
+
+// sameCallees lists the names of functions called statically from fn (ghost CALLED_ flags start false).
+func sameCallees(fn *ssa.Function) []string {
+	seen := map[string]bool{}
+	var out []string
+	for _, b := range fn.Blocks {
+		for _, ins := range b.Instrs {
+			if c, ok := ins.(ssa.CallInstruction); ok {
+				n := ""
+				if sc := c.Common().StaticCallee(); sc != nil {
+					n = sc.Name()
+				} else if c.Common().IsInvoke() {
+					n = c.Common().Method.Name()
+				}
+				if n != "" && !seen[n] {
+					seen[n] = true
+					out = append(out, n)
+				}
+			}
+		}
+	}
+	sort.Strings(out)
+	return out
 }
